@@ -49,6 +49,7 @@ Opt(name, v) == [k |-> "opt", name |-> name, v |-> v]
 G(toks, sem) == [toks |-> toks, sem |-> sem]
 OkGroups ==
   { G(<<"-m", "rmse">>, [k |-> "metric", v |-> "rmse"]), G(<<"-m", "ets">>, [k |-> "metric", v |-> "ets"]), G(<<"-m", "obs">>, [k |-> "metric", v |-> "obs"]),
+    G(<<"-m", "bias">>, [k |-> "metric", v |-> "bias"]),        \* (-agg on a score of the errors: the statistic of fcst - obs, not a difference of statistics; after seed C13-j)
     G(<<"-x", "time">>, [k |-> "axis", v |-> "time"]), G(<<"-x", "location">>, [k |-> "axis", v |-> "location"]), G(<<"-x", "no">>, [k |-> "axis", v |-> "no"]),
     G(<<"-x", "month">>, [k |-> "axis", v |-> "month"]), G(<<"-x", "leadtimeday">>, [k |-> "axis", v |-> "leadtimeday"]),
     G(<<"-agg", "max">>, [k |-> "agg", v |-> "max"]), G(<<"-agg", "median">>, [k |-> "agg", v |-> "median"]),
